@@ -518,6 +518,14 @@ pub fn run_check(prop: &str, tier: Tier, seed: u64, profiles: &[&str]) -> i32 {
         evaluations += res.counters.get("evaluations").copied().unwrap_or(0);
         transitions += res.counters.get("transitions").copied().unwrap_or(0);
         nontrivial += res.counters.get("nontrivial:single_deviation_still_opens").copied().unwrap_or(0) + res.counters.get("pair_cases").copied().unwrap_or(0);
+        // vacuity guard: together the baselines must make the parser produce every box kind the library can render
+        const KINDS: [&str; 47] = ["ftyp", "moov", "mvhd", "meta", "ilst", "data", "mvex", "mehd", "trex", "udta", "trak", "tkhd", "edts", "elst", "mdia", "mdhd", "hdlr", "minf", "vmhd", "smhd", "dinf", "stbl", "stsd", "avc1", "avcC", "hev1", "hvcC", "vp09", "vpcC", "mp4a", "esds", "tx3g", "stts", "ctts", "stss", "stsc", "stsz", "stco", "co64", "moof", "mfhd", "traf", "tfhd", "tfdt", "trun", "emsg", "data"];
+        if !res.capped {
+            let missing: Vec<&str> = KINDS.iter().filter(|k| res.counters.get(&format!("box:{}", k)).copied().unwrap_or(0) == 0).cloned().collect();
+            if !missing.is_empty() {
+                machinery_failure(&format!("baselines never produce box kinds {:?}: the exploration would be vacuous for them", missing));
+            }
+        }
         if res.counters.get("baseline_failed_to_open").copied().unwrap_or(0) > 0 {
             machinery_failure("a baseline does not open on this tree: E3 would be vacuous (triage the baseline)");
         }
